@@ -123,6 +123,10 @@ func shadowing(sig *types.Signature) map[string]bool {
 			walk(typ.Params())
 			walk(typ.Results())
 		case *types.Interface:
+			if typ.Empty() {
+				// the empty interface may be printed as any
+				mentioned["any"] = true
+			}
 			for i := 0; i < typ.NumExplicitMethods(); i++ {
 				walk(typ.ExplicitMethod(i).Type())
 			}
